@@ -1,8 +1,15 @@
 """props_c13 — C13 (state / action / control switching is scoped) on the shared engine pipeline.
 
-oracle      : Python mirror of the specification checker coq/StateScope.v (`step` / `accepts`), applied to the
-              IMPLEMENTATION's event log, plus the instance bookkeeping the real state objects report
-              (instance ids, `outer` instance of N/Y, instance seen by every action).  It never looks at the model.
+oracle      : judges the IMPLEMENTATION's event log against the specification side, never against the model:
+              1. the scope checker StateScope.accepts EXTRACTED from Coq (coq/ExtractC13.v + driver/c13_driver.ml), run once
+                 per chunk over every log that carries the invocation trace (control families ctl2 / ctl3);
+              2. its Python mirror (class Machine: same frames, same lexical-scope functions child_dv / own), which adds what
+                 the real state objects report beyond the model's events — instance ids, the `outer` instance handed to the
+                 constructor and to success(), the instance every action saw — and readable messages; a disagreement
+                 between mirror and extracted checker is itself reported;
+              3. without the invocation trace (ctl0 / ctl1): nesting of N/Y/D, ids, outer instances, instance seen by actions;
+              4. grammars tagged multi:<kind>: a surface-level expectation for multi-argument switch rules
+                 (action< A, R1, R2 >, control<>, disable<>, enable<>, state<>): the whole pack, nothing behind it.
 projection  : result kind + state / action / hook / invocation events (model vs implementation).
 extra_grams : every switch kind attached to a named rule (custom family act9/act10) x calling contexts
               (backtracking, predicates, disabled sections, loops, must<> / throwing actions inside the scope,
@@ -612,10 +619,10 @@ def choose_cfgs(g, k, tier):
     if "c13" in g.tags:
         if tier != "thorough":
             return C13_CFGS_QUICK
-        # the three quick configurations + two of the remaining three, rotated
-        return C13_CFGS_QUICK + [C13_CFGS_THOROUGH[3 + k % 3], C13_CFGS_THOROUGH[3 + (k + 1) % 3]]
+        # the three quick configurations + one of the remaining three, rotated
+        return C13_CFGS_QUICK + [C13_CFGS_THOROUGH[3 + k % 3]]
     if tier == "thorough":
-        # shared corpus (state / switch templates): three of the twelve shared configurations, rotated
-        idx = [[0, 1, 8], [2, 5, 10], [1, 3, 9], [0, 4, 11], [5, 6, 2], [1, 7, 10]][k % 6]
+        # shared corpus (state / switch templates): two of the twelve shared configurations, rotated
+        idx = [[0, 8], [1, 10], [2, 5], [3, 9], [1, 4], [0, 11], [5, 6], [7, 10]][k % 8]
         return [er.CFGS[i] for i in idx]
     return None
